@@ -46,7 +46,20 @@ NA_ADMISSIBLE = {
     "embedding": [None],
 }
 ALL_NA = ["MEAN", "MOST_FREQUENT", "ZEROS", "OLDEST_TIMESTAMP", "NEWEST_TIMESTAMP", "MEDIAN_TIMESTAMP"]
-POSTS = [None, "relu", "tanh", "layernorm", "seq"]
+# every form a shape-preserving post-module takes: none, out-of-place, IN-PLACE (the module writes into the
+# tensor it is given), Sequential mixes, a user Module that writes into its input
+POSTS = [None, "relu", "tanh", "layernorm", "seq", "relu_inplace", "hardtanh_inplace", "dropout_inplace",
+         "seq_inplace", "user_inplace"]
+INPLACE_POSTS = {"relu_inplace", "hardtanh_inplace", "dropout_inplace", "seq_inplace", "user_inplace"}
+
+
+class UserInplace(torch.nn.Module):
+    """a user post-module that works in place on the tensor it is given"""
+
+    def forward(self, x):
+        x.mul_(2.0)
+        x.clamp_(min=-3.0)
+        return x
 STYPE_ORDER_DOC = None   # the oracle never assumes an order
 
 
@@ -92,6 +105,16 @@ def make_post(kind, channels):
         return torch.nn.LayerNorm(channels)
     if kind == "seq":
         return torch.nn.Sequential(torch.nn.ReLU(), torch.nn.LayerNorm(channels))
+    if kind == "relu_inplace":
+        return torch.nn.ReLU(inplace=True)
+    if kind == "hardtanh_inplace":
+        return torch.nn.Hardtanh(inplace=True)
+    if kind == "dropout_inplace":
+        return torch.nn.Dropout(0.5, inplace=True)          # identity in eval mode
+    if kind == "seq_inplace":
+        return torch.nn.Sequential(torch.nn.ReLU(inplace=True), torch.nn.LayerNorm(channels))
+    if kind == "user_inplace":
+        return UserInplace()
     raise ValueError(kind)
 
 
